@@ -506,11 +506,48 @@ func isScalarType(t types.Type) bool {
 func selectElem(s []value, idx *smt.Term, et types.Type) value {
 	c := idx.C
 	n := len(s)
+	// table2[table1[x]]: compose the two constant tables instead of nesting the chains (hex decode of hex encode)
+	if t1, ok := c.AsTable(idx); ok {
+		if t2, ok := constByteTable(s); ok {
+			at := func(k uint64) uint64 {
+				if v := t1.At(k); v < uint64(len(t2)) {
+					return uint64(t2[v])
+				}
+				return 0 // unreachable: the index was checked against the length before
+			}
+			nk := uint64(len(t1.Keys))
+			ident := t1.X.W >= 8 && t1.Dense() && at(nk) == nk
+			for _, k := range t1.Keys {
+				ident = ident && at(k) == k
+			}
+			if ident {
+				return mkVal(et, c.Extract(t1.X, 0, 8))
+			}
+			r := c.Const(at(^uint64(0)), 8)
+			for i := len(t1.Keys) - 1; i >= 0; i-- {
+				r = c.Ite(c.Eq(t1.X, c.Const(t1.Keys[i], t1.X.W)), c.Const(at(t1.Keys[i]), 8), r)
+			}
+			return mkVal(et, r)
+		}
+	}
 	r := termOf(c, s[n-1])
 	for k := n - 2; k >= 0; k-- {
 		r = c.Ite(c.Eq(idx, c.Const(uint64(k), 64)), termOf(c, s[k]), r)
 	}
 	return mkVal(et, r)
+}
+
+// constByteTable returns the elements when all are concrete bytes.
+func constByteTable(s []value) ([]byte, bool) {
+	b := make([]byte, len(s))
+	for i, v := range s {
+		x, ok := v.(uint8)
+		if !ok {
+			return nil, false
+		}
+		b[i] = x
+	}
+	return b, true
 }
 
 func storeElem(s []value, idx *smt.Term, v value, et types.Type) {
